@@ -129,9 +129,17 @@ func genOpts(rng *rand.Rand, tier string, mode string) sim.Opts {
 	}
 	o.MaxUncommittedEntriesSize = []uint64{0, 0, 1, 20, 100, 1000}[rng.Intn(6)]
 	o.MaxInflightMsgs = []int{1, 2, 3, 8, 256}[rng.Intn(5)]
-	o.MaxInflightBytes = []uint64{0, 0, 0, 1 << 20, 400}[rng.Intn(5)]
+	o.MaxInflightBytes = []uint64{0, 0, 0, 1 << 20, 400, 150, 1000}[rng.Intn(7)]
 	if o.MaxInflightBytes != 0 && o.MaxInflightBytes < o.MaxSizePerMsg {
-		o.MaxInflightBytes = 0
+		if rng.Intn(2) == 0 {
+			o.MaxInflightBytes = 0
+		} else {
+			o.MaxSizePerMsg = []uint64{1, 30, 80}[rng.Intn(3)]
+		}
+	}
+	byteLimited := o.MaxInflightBytes != 0 && o.MaxInflightBytes < 1<<20
+	if byteLimited && rng.Intn(2) == 0 {
+		o.MaxInflightMsgs = 256 // the window fills by bytes long before it fills by count
 	}
 	o.ReadOnlyLease = rng.Intn(8) == 0
 	o.DisableProposalForwarding = rng.Intn(8) == 0
@@ -144,7 +152,7 @@ func genOpts(rng *rand.Rand, tier string, mode string) sim.Opts {
 	o.Partitions = rng.Intn(3) == 0
 	o.LossPct = []int{0, 0, 5, 15, 30}[rng.Intn(5)]
 	o.DupPct = []int{0, 0, 5, 15}[rng.Intn(4)]
-	o.BigPayloads = rng.Intn(2) == 0
+	o.BigPayloads = rng.Intn(2) == 0 || byteLimited
 	o.BaseIndex = []uint64{1, 2, 2, 5}[rng.Intn(4)]
 	if rng.Intn(8) == 0 {
 		o.BaseIndex += 1 << 63
